@@ -161,7 +161,9 @@ func NewIdP(w *World, name, scheme, host string) *IdP {
 		codes: map[string]*codeRec{}, rts: map[string]*rtRec{}, issued: map[string]*issuedTok{}}
 }
 
-func (p *IdP) base() string         { return p.Scheme + "://" + strings.TrimSuffix(strings.TrimSuffix(p.Host, ":80"), ":443") + p.Path }
+func (p *IdP) base() string {
+	return p.Scheme + "://" + strings.TrimSuffix(strings.TrimSuffix(p.Host, ":80"), ":443") + p.Path
+}
 func (p *IdP) AuthorizeURL() string { return p.base() + "/authorize" + p.AuthQuery }
 func (p *IdP) TokenURL() string     { return p.base() + "/token" }
 func (p *IdP) JWKSURL() string      { return p.base() + "/jwks" }
@@ -211,11 +213,11 @@ func (p *IdP) Handler() http.Handler {
 		p.DiscHits++
 		p.mu.Unlock()
 		doc := map[string]any{
-			"issuer":                 p.base(),
-			"authorization_endpoint": p.AuthorizeURL(),
-			"token_endpoint":         p.TokenURL(),
-			"jwks_uri":               p.JWKSURL(),
-			"end_session_endpoint":   p.EndSessionURL(),
+			"issuer":                   p.base(),
+			"authorization_endpoint":   p.AuthorizeURL(),
+			"token_endpoint":           p.TokenURL(),
+			"jwks_uri":                 p.JWKSURL(),
+			"end_session_endpoint":     p.EndSessionURL(),
 			"response_types_supported": []string{"code"},
 		}
 		w.Header().Set("Content-Type", "application/json")
